@@ -52,6 +52,18 @@ pub fn check_case(seq: &[u8], k: usize) -> Verdict {
         v.class_if(want.iter().any(|w| w.0 > first_foreign), "resync");
     }
     v.nontrivial = !want.is_empty() && (has_foreign || k >= 16 || lower || has_u);
+    // the same bytes at every address alignment (word-wise and SIMD fast paths split off an unaligned head)
+    if seq.len() <= 4096 {
+        for t in 0..16 {
+            let a = crate::util::Aligned::new(seq, t);
+            let g: Vec<(u64, u64)> = KmerGenerator::new(a.get(), k).collect();
+            if g != got {
+                let p = g.iter().zip(got.iter()).position(|(x, y)| x != y).unwrap_or(g.len().min(got.len()));
+                v.fail("depends-on-address-alignment", format!("with the first byte at an address = {} mod 16 the iterator yields {} items, otherwise {}; first difference at item {} (k={})", t, g.len(), got.len(), p, k));
+                return v;
+            }
+        }
+    }
     if got.len() != want.len() {
         v.fail(
             "count-mismatch",
@@ -241,7 +253,23 @@ impl Leg for Cold {
     }
 }
 
+/// histories on one thread: k-mer iterators alive together, advanced in a generated interleaving, dropped early, rebuilt
+pub struct Sessions;
+impl Leg for Sessions {
+    type Case = super::sessions::Session;
+    const NAME: &'static str = "call-histories";
+    fn strategy(_tier: Tier) -> BoxedStrategy<Self::Case> {
+        super::sessions::strategy(&[0])
+    }
+    fn check(c: &Self::Case) -> Verdict {
+        super::sessions::check(c)
+    }
+}
+
 pub fn run(ctx: &mut Ctx) {
+    let ns = ctx.share(ctx.tier.pick(8_000, 160_000));
+    ctx.run_leg::<Sessions>(ns, false, 400);
+
     let ng = ctx.share(ctx.tier.pick(96, 2_400));
     ctx.run_leg::<Giants>(ng, false, 12);
     let nc = ctx.share(ctx.tier.pick(400, 8_000));
@@ -261,6 +289,7 @@ pub fn replay(leg: &str, case: &serde_json::Value) -> Option<Result<Verdict, Str
         "python" => Some(crate::engine::replay_leg::<Python>(case)),
         "cold-start-threads" => Some(crate::engine::replay_leg::<Cold>(case)),
         "giant-sequences" => Some(crate::engine::replay_leg::<Giants>(case)),
+        "call-histories" => Some(crate::engine::replay_leg::<Sessions>(case)),
         _ => None,
     }
 }
